@@ -36,6 +36,13 @@ MARGIN = 1e-6
 OFFS = [Fr(1, 100000), Fr(1, 1000), Fr(3, 10)]
 
 
+WEDGES = [
+    [[-10, -2, 0], [10, -2, 0], [10, 2, 0], [-10, 2, 0], [-3, 0, 10], [3, 0, 10]],  # roof, ridge shorter than the base
+    [[-6, -1, 0], [6, -1, 0], [6, 1, 0], [-6, 1, 0], [-1, 0, 12], [1, 0, 12]],  # steep roof, very short ridge
+    [[0, 0, 0], [12, 0, 0], [12, 3, 0], [0, 3, 0], [4, 1, 5], [7, 2, 5]],  # skew ridge, off-origin
+]
+
+
 def cases(tier):
     out = []
     pq = A.placements_quick()
@@ -91,6 +98,14 @@ def cases(tier):
         for j, r in enumerate(radii[1:]):
             out.append({"kind": "sphero", "pts": S, "r": r, "pl": tp[(i // 24 + j) % len(tp)]})
         out.append({"kind": "convex", "pts": S, "pl": tp[(i // 24) % len(tp)], "cls": "Polyhedron"})
+    # wedge / roof cores: a short sharp ridge between blunt slanted end faces (wave-7 seed W7_C05b)
+    for k, W in enumerate(WEDGES):
+        for j, r in enumerate(("1/20", "1/4", "1/2")):
+            if q and (k + j) % 2:
+                continue
+            out.append({"kind": "sphero", "pts": W, "r": r, "pl": pq[(3 * k + j) % 8]})
+            if not q:
+                out.append({"kind": "sphero", "pts": W, "r": r, "pl": pq[(3 * k + j + 4) % 8]})
     if not q:
         for i, S in enumerate(s5):
             if i % 40 == 0:
@@ -233,6 +248,28 @@ def build(case):
                     for fac in (Fr(1, 2), Fr(9, 10), Fr(999, 1000), Fr(1001, 1000), Fr(11, 10), Fr(2)):
                         lam = Fr(float(r) * float(fac) / un).limit_denominator(10**9)
                         extra.append(tuple(f[m] + lam * u[m] for m in range(3)))
+            # edge-hover points (wave-7 seed W7_C05b: only the face with the largest plane distance was examined,
+            # so a point over a short sharp ridge next to a blunt end face was missed): along every edge at
+            # t in {1/8, 1/2, 7/8}, lifted along either adjacent facet normal and their sum by r x {1/2, 9/10, 11/10}
+            if r > 0:
+                fn = {}
+                for nr, _, _, ext in facets:
+                    ln = math.sqrt(float(X.dot(nr, nr)))
+                    for a_ in ext:
+                        fn.setdefault(a_, []).append(tuple(float(x) / ln for x in nr))
+                fof = [(set(ext), tuple(float(x) / math.sqrt(float(X.dot(nr, nr))) for x in nr)) for nr, _, _, ext in facets]
+                for a_, b_ in X.mesh_edges(faces):
+                    adj = [n for ext, n in fof if a_ in ext and b_ in ext]
+                    if len(adj) != 2:
+                        continue
+                    sm = tuple(adj[0][m] + adj[1][m] for m in range(3))
+                    sl = math.sqrt(sum(x * x for x in sm))
+                    dirs = list(adj) + ([tuple(x / sl for x in sm)] if sl > 1e-9 else [])
+                    for t_ in (Fr(1, 8), Fr(1, 2), Fr(7, 8)):
+                        base_pt = tuple(Fr(P[a_][m]) + t_ * (Fr(P[b_][m]) - Fr(P[a_][m])) for m in range(3))
+                        for dv in dirs:
+                            for fac in (0.5, 0.9, 1.1):
+                                extra.append(tuple(base_pt[m] + Fr(float(r) * fac * dv[m]).limit_denominator(10**9) for m in range(3)))
             Q = Q + extra
         elif kind == "vox":
             obj = S.Polyhedron(F.copy(), [list(f) for f in faces], faces_are_convex=True)
